@@ -38,6 +38,7 @@ SingleArgs(n) ==
   \cup {[op |-> "modify", name |-> nm, col |-> v, form |-> fm] : nm \in {"a", "b", "x"}, v \in ColVals(n),
                                                               fm \in {"value", "callable"}}
 PairArgs(n) == {[op |-> o, g |-> g] : o \in {"cbind", "update"}, g \in SecondFrames(n)}
+          \cup {[op |-> "cbind", g |-> g, g2 |-> g2] : g \in SecondFrames(n), g2 \in {h \in SecondFrames(n) : "x" \in ColSet(h) /\ NRow(h) = n /\ h.cell["x"] = [i \in 1..n |-> 2]}}
 
 \* rbind operands: a column subsequence of the base frame, or a fresh frame with other columns
 SubFrame(f, cs) == [cols |-> cs \o <<"r">>, cell |-> [c \in Range(cs) \cup {"r"} |-> f.cell[c]]]
@@ -59,7 +60,7 @@ ChooseSingle ==
   /\ stage = "args" /\ Which = "single"
   /\ \E a \in SingleArgs(Len(ca)) \cup PairArgs(Len(ca)) :
         /\ arg' = a
-        /\ others' = IF a.op \in {"cbind", "update"} THEN <<a.g>> ELSE <<>>
+        /\ others' = IF a.op \in {"cbind", "update"} THEN (IF "g2" \in DOMAIN a THEN <<a.g, a.g2>> ELSE <<a.g>>) ELSE <<>>
         /\ ((Emit /\ Canon) => PrintT(ToJson([kind |-> "arg", n |-> Len(ca), a |-> a])))
   /\ stage' = "done" /\ UNCHANGED <<ca, cb, cc>>
 ChooseRbind ==
